@@ -64,6 +64,7 @@ class VSock:
         self.send_calls = 0
         self.fail_send_at: Optional[int] = None  # harness-injected write fault at the k-th send
         self.shut = False  # shutdown() was called on this end
+        self.send_free: Optional[int] = None  # free space of the send buffer as a non-blocking send would find it (None = plenty)
 
     # identity -------------------------------------------------------------------------------
     def __hash__(self):
@@ -210,6 +211,16 @@ class VSock:
         p = self.peer_sock
         if p is None:
             raise OSError(errno.ENOTCONN, "Transport endpoint is not connected")
+        if self.send_free is not None and (flags & _rs.MSG_DONTWAIT) and len(b) > self.send_free:
+            # a congested connection and a non-blocking send (send(2)): what fits is written, then EAGAIN. A blocking send
+            # simply waits for the reader, which is how the unchanged manager writes, so congestion changes nothing for it.
+            part = b[:self.send_free]
+            p.rx += part
+            if part:
+                p.segs.append(len(part))
+            self.send_free = 0
+            self.net.on_send(self, part, delivered=True)
+            raise BlockingIOError(errno.EAGAIN, "Resource temporarily unavailable")
         p.rx += b
         if b:
             p.segs.append(len(b))
